@@ -7,10 +7,10 @@ mkdir -p work/mutres
 while [ ! -e work/mutres/STOP ]; do
   found=0
   for pid in "$@"; do
-   for d in /tmp/mut_$pid/out/m* /tmp/mut2_$pid/out/m* /tmp/mut3_$pid/out/m* /tmp/mut5_$pid/out/m* /tmp/mut6_$pid/out/m*; do
+   for d in /tmp/mut_$pid/out/m* /tmp/mut2_$pid/out/m* /tmp/mut3_$pid/out/m* /tmp/mut5_$pid/out/m* /tmp/mut6_$pid/out/m* /tmp/mut7_$pid/out/m*; do
     [ -f "$d/patch.diff" ] && [ -f "$d/demo.py" ] && [ -f "$d/notes.json" ] || continue
     mk=$(basename "$d")
-    case "$d" in /tmp/mut2_*) mk="r2$mk";; /tmp/mut3_*) mk="r3$mk";; /tmp/mut5_*) mk="r5$mk";; /tmp/mut6_*) mk="r6$mk";; esac
+    case "$d" in /tmp/mut2_*) mk="r2$mk";; /tmp/mut3_*) mk="r3$mk";; /tmp/mut5_*) mk="r5$mk";; /tmp/mut6_*) mk="r6$mk";; /tmp/mut7_*) mk="r7$mk";; esac
     out="work/mutres/${pid}_${mk}.json"
     [ -e "$out" ] && continue
     [ -e work/mutres/STOP ] && break
